@@ -247,6 +247,13 @@ Proof.
   destruct (isf_false s e O G E) as [a Ha]. rewrite Hf in Ha. discriminate.
 Qed.
 
+Variable add_lit : snap -> edge -> nat -> bool -> option (snap * edge).
+
+Hypothesis add_lit_ok : forall s sub l c, OK s -> good s sub -> l < nlevels s ->
+  l < rlevel s (eref sub) -> (exists a, den s sub a = true) ->
+  exists s' r, add_lit s sub l c = Some (s', r) /\ OK s' /\ extends s s' /\ good s' r /\
+    rlevel s' (eref r) = l /\ forall a, den s' r a = Bool.eqb (a l) c && den s sub a.
+
 Section Choice.
 Variable St : Type.
 Variable choice : St -> nat -> edge -> bool * St.
@@ -474,16 +481,6 @@ Qed.
 
 (** *** [pick_cube_dd] *)
 
-Variable add_lit : snap -> edge -> nat -> bool -> option (snap * edge).
-
-Hypothesis OK_ext_levels : forall s s', extends s s' -> nlevels s' = nlevels s.
-Hypothesis good_extends : forall s s' e, OK s -> extends s s' -> good s e -> good s' e.
-Hypothesis den_extends : forall s s' e a, OK s -> OK s' -> extends s s' -> good s e -> den s' e a = den s e a.
-Hypothesis add_lit_ok : forall s sub l c, OK s -> good s sub -> l < nlevels s ->
-  l < rlevel s (eref sub) -> (exists a, den s sub a = true) ->
-  exists s' r, add_lit s sub l c = Some (s', r) /\ OK s' /\ extends s s' /\ good s' r /\
-    rlevel s' (eref r) = l /\ forall a, den s' r a = Bool.eqb (a l) c && den s sub a.
-
 Lemma pick_dd_spec : forall fuel s st e, OK s -> good s e -> isf s e = false ->
   nlevels s - rlevel s (eref e) < fuel ->
   exists s' r tr st',
@@ -521,7 +518,7 @@ Proof.
     destruct (IH s st1 (if c then t else x) O Gc Fc ltac:(destruct c; lia))
       as [s1 [sub [tr [st2 [P [W [O1 [X1 [G1 [L1 [D1 [a1 Ha1]]]]]]]]]]]].
     rewrite P, W.
-    destruct (add_lit_ok s1 sub l c O1 G1 ltac:(rewrite (OK_ext_levels _ _ X1); exact Ll)
+    destruct (add_lit_ok s1 sub l c O1 G1 ltac:(rewrite (ext_nlevels _ _ X1); exact Ll)
                 ltac:(rewrite L1; exact Lc) (ex_intro _ a1 Ha1))
       as [s2 [r [Ea [O2 [X2 [G2 [L2 D2]]]]]]].
     rewrite Ea. exists s2, r, (mkStep l e (Some c) asked :: tr), st2.
@@ -577,5 +574,221 @@ Proof.
 Qed.
 
 End Choice.
+
+(** *** [pick_cube_dd_set] with a literal set that is a cube diagram *)
+
+(** [set] is the diagram of the conjunction of the literals [L] (top-down) *)
+Inductive CubeAt (s : snap) : edge -> list (nat * bool) -> Prop :=
+| CA_end : forall e, view s e = CTerm true -> CubeAt s e []
+| CA_neg : forall e l t x L, view s e = CNode l t x -> isf s t = true ->
+    CubeAt s x L -> CubeAt s e ((l, false) :: L)
+| CA_pos : forall e l t x L, view s e = CNode l t x -> isf s t = false -> isf s x = true ->
+    CubeAt s t L -> CubeAt s e ((l, true) :: L).
+
+Lemma cube_lits_CubeAt : forall fuel s e L, cube_lits view fuel s e = Some L -> CubeAt s e L.
+Proof.
+  induction fuel as [|f IH]; intros s e L E; simpl in E; [discriminate|].
+  destruct (view s e) as [|b|l t x] eqn:Ev; [discriminate| |].
+  - destruct b; [|discriminate]. inversion E. apply CA_end. exact Ev.
+  - destruct (isf s t) eqn:Ft.
+    + destruct (cube_lits view f s x) as [L'|] eqn:El; [|discriminate]. simpl in E. inversion E.
+      eapply CA_neg; eauto.
+    + destruct (isf s x) eqn:Fx; [|discriminate].
+      destruct (cube_lits view f s t) as [L'|] eqn:El; [|discriminate]. simpl in E. inversion E.
+      eapply CA_pos; eauto.
+Qed.
+
+Lemma CubeAt_nonfalse : forall s e L, CubeAt s e L -> isf s e = false.
+Proof.
+  intros s e L C. unfold is_false. destruct C as [e Ev | e l t x L Ev _ _ | e l t x L Ev _ _ _]; rewrite Ev; reflexivity.
+Qed.
+
+Lemma CubeAt_levels : forall s e L, OK s -> CubeAt s e L -> good s e ->
+  forall l b, In (l, b) L -> rlevel s (eref e) <= l.
+Proof.
+  intros s e L O C. induction C as [e Ev | e l t x L Ev Ft C IH | e l t x L Ev Ft Fx C IH]; intros G l0 b Hin.
+  - destruct Hin.
+  - destruct (view_node s e l t x O G Ev) as [El [Ll [Gt [Gx [Lt [Lx _]]]]]].
+    destruct Hin as [Hin|Hin]; [inversion Hin; lia|]. specialize (IH Gx l0 b Hin). lia.
+  - destruct (view_node s e l t x O G Ev) as [El [Ll [Gt [Gx [Lt [Lx _]]]]]].
+    destruct Hin as [Hin|Hin]; [inversion Hin; lia|]. specialize (IH Gt l0 b Hin). lia.
+Qed.
+
+Lemma lit_pol_absent : forall L l, (forall l' b, In (l', b) L -> l < l') -> lit_pol L l = false.
+Proof.
+  induction L as [|[l0 b0] r IH]; intros l Hl; simpl; [reflexivity|].
+  destruct (Nat.eqb_spec l0 l) as [E|_].
+  - specialize (Hl l0 b0 (or_introl eq_refl)). lia.
+  - apply IH. intros l' b Hin. apply (Hl l' b). right. exact Hin.
+Qed.
+
+Lemma pop_cube : forall fuel s set L until, OK s -> good s set -> CubeAt s set L ->
+  nlevels s - rlevel s (eref set) < fuel -> until <= nlevels s ->
+  exists set' L', pop view fuel s set until = Some set' /\ good s set' /\ CubeAt s set' L' /\
+    until <= rlevel s (eref set') /\ forall l, until <= l -> lit_pol L' l = lit_pol L l.
+Proof.
+  induction fuel as [|f IH]; intros s set L until O G C Hf Hu; [lia|].
+  simpl. destruct C as [e Ev | e l t x L Ev Ft C | e l t x L Ev Ft Fx C].
+  - rewrite Ev. exists e, []. split; [reflexivity|]. split; [exact G|]. split; [apply CA_end; exact Ev|].
+    split; [rewrite (proj1 (view_term s e true O G Ev)); exact Hu | reflexivity].
+  - rewrite Ev. destruct (view_node s e l t x O G Ev) as [El [Ll [Gt [Gx [Lt [Lx _]]]]]].
+    pose proof (rlevel_le s (OK_WF s O) (eref x)).
+    destruct (Nat.ltb_spec l until) as [Hlt|Hge].
+    + rewrite Ft. destruct (IH s x L until O Gx C ltac:(lia) Hu) as [set' [L' [P [G' [C' [U' Hp]]]]]].
+      exists set', L'. split; [exact P|]. split; [exact G'|]. split; [exact C'|]. split; [exact U'|].
+      intros l0 Hl0. rewrite (Hp l0 Hl0). simpl. destruct (Nat.eqb_spec l l0); [lia | reflexivity].
+    + exists e, ((l, false) :: L). split; [reflexivity|]. split; [exact G|].
+      split; [eapply CA_neg; eauto|]. split; [lia | reflexivity].
+  - rewrite Ev. destruct (view_node s e l t x O G Ev) as [El [Ll [Gt [Gx [Lt [Lx _]]]]]].
+    pose proof (rlevel_le s (OK_WF s O) (eref t)).
+    destruct (Nat.ltb_spec l until) as [Hlt|Hge].
+    + rewrite Ft. destruct (IH s t L until O Gt C ltac:(lia) Hu) as [set' [L' [P [G' [C' [U' Hp]]]]]].
+      exists set', L'. split; [exact P|]. split; [exact G'|]. split; [exact C'|]. split; [exact U'|].
+      intros l0 Hl0. rewrite (Hp l0 Hl0). simpl. destruct (Nat.eqb_spec l l0); [lia | reflexivity].
+    + exists e, ((l, true) :: L). split; [reflexivity|]. split; [exact G|].
+      split; [eapply CA_pos; eauto|]. split; [lia | reflexivity].
+Qed.
+
+Lemma set_choice_cube : forall s set L l, OK s -> good s set -> CubeAt s set L -> l < nlevels s ->
+  exists set' L', set_choice view s set l = Some (set', lit_pol L l) /\ good s set' /\ CubeAt s set' L' /\
+    forall l', l < l' -> lit_pol L' l' = lit_pol L l'.
+Proof.
+  intros s set L l O G C Hl. unfold set_choice.
+  pose proof (rlevel_le s (OK_WF s O) (eref set)).
+  destruct (pop_cube (S (nlevels s)) s set L l O G C ltac:(lia) ltac:(lia)) as [set1 [L1 [P [G1 [C1 [U1 Hp]]]]]].
+  rewrite P, <- (Hp l (le_n _)).
+  destruct C1 as [e Ev | e l1 t x L1 Ev Ft C1 | e l1 t x L1 Ev Ft Fx C1]; rewrite Ev.
+  - exists e, []. split; [reflexivity|]. split; [exact G1|]. split; [apply CA_end; exact Ev|].
+    intros l' Hl'. rewrite <- (Hp l') by lia. reflexivity.
+  - destruct (view_node s e l1 t x O G1 Ev) as [El [Ll [Gt [Gx [Lt [Lx _]]]]]].
+    destruct (Nat.eqb_spec l1 l) as [->|Hne].
+    + rewrite (CubeAt_nonfalse s x L1 C1). simpl. rewrite Nat.eqb_refl.
+      exists x, L1. split; [reflexivity|]. split; [exact Gx|]. split; [exact C1|].
+      intros l' Hl'. rewrite <- (Hp l') by lia. simpl. destruct (Nat.eqb_spec l l'); [lia | reflexivity].
+    + rewrite (lit_pol_absent ((l1, false) :: L1) l).
+      * exists e, ((l1, false) :: L1). split; [reflexivity|]. split; [exact G1|].
+        split; [eapply CA_neg; eauto|]. intros l' Hl'. apply Hp. lia.
+      * intros l' b [Hin|Hin]; [inversion Hin; lia|].
+        pose proof (CubeAt_levels s x L1 O C1 Gx l' b Hin). lia.
+  - destruct (view_node s e l1 t x O G1 Ev) as [El [Ll [Gt [Gx [Lt [Lx _]]]]]].
+    destruct (Nat.eqb_spec l1 l) as [->|Hne].
+    + rewrite Fx. simpl. rewrite Nat.eqb_refl.
+      exists t, L1. split; [reflexivity|]. split; [exact Gt|]. split; [exact C1|].
+      intros l' Hl'. rewrite <- (Hp l') by lia. simpl. destruct (Nat.eqb_spec l l'); [lia | reflexivity].
+    + rewrite (lit_pol_absent ((l1, true) :: L1) l).
+      * exists e, ((l1, true) :: L1). split; [reflexivity|]. split; [exact G1|].
+        split; [eapply CA_pos; eauto|]. intros l' Hl'. apply Hp. lia.
+      * intros l' b [Hin|Hin]; [inversion Hin; lia|].
+        pose proof (CubeAt_levels s t L1 O C1 Gt l' b Hin). lia.
+Qed.
+
+(** forget the (trivial) state of the level-indexed choice *)
+Definition drop_st (r : option (snap * edge * list step * unit)) : option (snap * edge * list step) :=
+  match r with Some (s', e, tr, _) => Some (s', e, tr) | None => None end.
+
+Lemma pick_dd_set_eq_gen : forall L fuel s e set Lc, OK s -> good s e -> good s set -> CubeAt s set Lc ->
+  (forall l, rlevel s (eref e) <= l -> lit_pol Lc l = lit_pol L l) ->
+  pick_dd_set view add_lit fuel s e set =
+  drop_st (pick_dd view unit (mask_choice (lit_pol L)) add_lit fuel s tt e).
+Proof.
+  intros L. induction fuel as [|f IH]; intros s e set Lc O G Gs C Hl; [reflexivity|].
+  simpl. destruct (view s e) as [|b|l t x] eqn:Ev; try reflexivity.
+  destruct (view_node s e l t x O G Ev) as [El [Ll [Gt [Gx [Lt [Lx _]]]]]].
+  destruct (set_choice_cube s set Lc l O Gs C Ll) as [set' [L' [Es [G' [C' Hp]]]]].
+  rewrite Es, (Hl l ltac:(lia)). unfold decide, mask_choice.
+  assert (Hrec : forall c : bool,
+    pick_dd_set view add_lit f s (if c then t else x) set' =
+    drop_st (pick_dd view unit (mask_choice (lit_pol L)) add_lit f s tt (if c then t else x))).
+  { intros c. apply (IH s (if c then t else x) set' L' O ltac:(destruct c; assumption) G' C').
+    intros l0 Hl0. rewrite (Hp l0) by (destruct c; lia). apply Hl. destruct c; lia. }
+  destruct (isf s t).
+  - rewrite (Hrec false). unfold mask_choice.
+    destruct (pick_dd view unit _ add_lit f s tt x) as [[[[s1 sub] tr] []]|]; [|reflexivity].
+    simpl. destruct (add_lit s1 sub l false) as [[s2 r]|]; reflexivity.
+  - destruct (isf s x).
+    + rewrite (Hrec true). unfold mask_choice.
+      destruct (pick_dd view unit _ add_lit f s tt t) as [[[[s1 sub] tr] []]|]; [|reflexivity].
+      simpl. destruct (add_lit s1 sub l true) as [[s2 r]|]; reflexivity.
+    + rewrite (Hrec (lit_pol L l)). unfold mask_choice.
+      destruct (pick_dd view unit _ add_lit f s tt (if lit_pol L l then t else x)) as [[[[s1 sub] tr] []]|]; [|reflexivity].
+      simpl. destruct (add_lit s1 sub l (lit_pol L l)) as [[s2 r]|]; reflexivity.
+Qed.
+
+(** [pick_cube_dd_set] = [pick_cube_dd] with the choice "polarity of the
+    level's variable in the literal set, false if it does not occur" *)
+Theorem pick_dd_set_eq : forall s e set L, OK s -> good s e -> good s set ->
+  cube_lits view (S (nlevels s)) s set = Some L ->
+  pick_cube_dd_set view add_lit s e set =
+  drop_st (pick_cube_dd view unit (mask_choice (lit_pol L)) add_lit s tt e).
+Proof.
+  intros s e set L O G Gs E. unfold pick_cube_dd_set, pick_cube_dd.
+  apply (pick_dd_set_eq_gen L (S (nlevels s)) s e set L O G Gs (cube_lits_CubeAt _ _ _ _ E)).
+  reflexivity.
+Qed.
+
+(** the literal set denotes the conjunction of its literals *)
+Lemma CubeAt_den : forall s e L, OK s -> CubeAt s e L -> good s e ->
+  forall a, den s e a = forallb (fun p : nat * bool => Bool.eqb (a (fst p)) (snd p)) L.
+Proof.
+  intros s e L O C. induction C as [e Ev | e l t x L Ev Ft C IH | e l t x L Ev Ft Fx C IH]; intros G a.
+  - apply (view_term s e true O G Ev).
+  - destruct (view_node s e l t x O G Ev) as [El [Ll [Gt [Gx [Lt [Lx [Hd _]]]]]]].
+    rewrite Hd. simpl. rewrite <- (IH Gx a), (isf_true s t O Gt Ft). destruct (a l); reflexivity.
+  - destruct (view_node s e l t x O G Ev) as [El [Ll [Gt [Gx [Lt [Lx [Hd _]]]]]]].
+    rewrite Hd. simpl. rewrite <- (IH Gt a), (isf_true s x O Gx Fx). destruct (a l); reflexivity.
+Qed.
+
+(** *** The probability of a trace under [pick_cube_uniform] *)
+
+Section Weight.
+Variable count : snap -> edge -> N.
+Hypothesis count_term : forall s e b, OK s -> good s e -> view s e = CTerm b ->
+  count s e = if b then (2 ^ N.of_nat (nlevels s))%N else 0%N.
+Hypothesis count_node : forall s e l t x, OK s -> good s e -> view s e = CNode l t x ->
+  (count s t + count s x = 2 * count s e)%N.
+
+Lemma count_false : forall s e, OK s -> good s e -> isf s e = true -> count s e = 0%N.
+Proof.
+  intros s e O G. unfold is_false. destruct (view s e) as [|[|]|] eqn:Ev; try discriminate.
+  intros _. apply (count_term s e false O G Ev).
+Qed.
+
+(** for every run (whatever the choice function answers): numerator and
+    denominator of the product of the branch probabilities are positive and
+      num / den = 2^(nlevels - number of literals) / count(e) *)
+Theorem run_weight : forall St choice s st e tr st', OK s -> Run St choice s st e tr st' -> good s e ->
+  let (num, dn) := trace_weight view count s tr in
+  (0 < num /\ 0 < dn /\ 0 < count s e /\
+   num * count s e * 2 ^ N.of_nat (length tr) = dn * 2 ^ N.of_nat (nlevels s))%N.
+Proof.
+  intros St choice s st e tr st' O R.
+  induction R as [st e Ev | st e l t x c tr st' Ev Ff R IH | st e l t x c st1 tr st' Ev Ft Fx Ec R IH]; intros G.
+  - simpl. rewrite (count_term s e true O G Ev). pose proof (pow2_pos (N.of_nat (nlevels s))).
+    change (2 ^ N.of_nat 0)%N with 1%N. lia.
+  - destruct (view_node s e l t x O G Ev) as [El [Ll [Gt [Gx _]]]].
+    pose proof (count_node s e l t x O G Ev) as Hn.
+    assert (G' : good s (if c then t else x)) by (destruct c; assumption).
+    assert (Z : count s (if c then x else t) = 0%N)
+      by (apply count_false; [exact O | destruct c; assumption | exact Ff]).
+    specialize (IH G'). cbn [trace_weight sp_asked].
+    destruct (trace_weight view count s tr) as [num dn]. destruct IH as [A [B [C D]]].
+    assert (Hc : (count s (if c then t else x) = 2 * count s e)%N) by (destruct c; lia).
+    cbn [length]. rewrite pow2_S. rewrite Hc in C, D. split; [exact A|]. split; [exact B|].
+    split; [lia|]. lia.
+  - destruct (view_node s e l t x O G Ev) as [El [Ll [Gt [Gx _]]]].
+    pose proof (count_node s e l t x O G Ev) as Hn.
+    assert (G' : good s (if c then t else x)) by (destruct c; assumption).
+    specialize (IH G'). cbn [trace_weight sp_asked sp_edge sp_val]. rewrite Ev.
+    destruct (trace_weight view count s tr) as [num dn]. destruct IH as [A [B [C D]]].
+    cbn [length]. rewrite pow2_S, Hn.
+    assert (P : (0 < count s e)%N) by (destruct c; lia).
+    split; [apply N.mul_pos_pos; assumption|]. split; [apply N.mul_pos_pos; lia|].
+    split; [exact P|].
+    replace (num * count s (if c then t else x) * count s e * (2 * 2 ^ N.of_nat (length tr)))%N
+      with ((num * count s (if c then t else x) * 2 ^ N.of_nat (length tr)) * (2 * count s e))%N by lia.
+    rewrite D. lia.
+Qed.
+
+End Weight.
 
 End Gen.
